@@ -16,10 +16,10 @@ PROPS["C08"] = dict(
         "c08_core_2bounds_2obs": dict(cap=1500, tier="thorough"),
         "c08_count_1bound_2obs": dict(cap=1500, tier="thorough"),
         "c08_count_concrete_2obs": dict(cap=1500, tier="thorough"),
-        "c08_count_local_2bounds_2obs": dict(cap=1500, tier="thorough"),
+        "c08_count_local_2bounds_2obs": dict(cap=1500, tier="experimental"),
         "c08_linear_buckets": dict(cap=1200, tier="thorough"),
         "c08_exponential_buckets_errors": dict(cap=300),
-        "c08_exponential_buckets_values": dict(cap=1200, tier="thorough"),
+        "c08_exponential_buckets_values": dict(cap=1200, tier="experimental"),
     },
     functions=["histogram::check_and_adjust_buckets", "HistogramCore::new", "HistogramCore::observe", "HistogramCore::proto",
                "HistogramCore::sample_sum", "HistogramCore::sample_count", "LocalHistogramCore::observe", "LocalHistogramCore::flush",
@@ -81,7 +81,7 @@ PROPS["C09"] = dict(
         "c09_label_name_regex_3chars": dict(cap=900),
         "c09_desc_new_checks_names": dict(cap=1200),
         "c09_desc_new_rejects_duplicate_label_names": dict(cap=1800),
-        "c09_desc_new_two_const_one_variable": dict(cap=5400, tier="thorough"),
+        "c09_desc_new_two_const_one_variable": dict(cap=5400, tier="experimental"),
         "c09_desc_new_three_variable_labels": dict(cap=2400),
         "c09_histogram_rejects_le_variable": dict(cap=1200),
         "c09_histogram_rejects_le_const": dict(cap=1200),
@@ -125,10 +125,10 @@ PROPS["C06"] = dict(
     harnesses={
         "c06_register_one_descriptor_step": dict(cap=1800),
         "c06_register_two_descriptors_new_then_known": dict(cap=2400),
-        "c06_register_two_descriptors_other_shapes": dict(cap=3600, tier="thorough"),
-        "c06_unregister_live_collector_step": dict(cap=3600, tier="thorough"),
-        "c06_unregister_unknown_collector_step": dict(cap=3600, tier="thorough"),
-        "c06_same_collector_twice_and_gather": dict(cap=5400, tier="thorough"),
+        "c06_register_two_descriptors_other_shapes": dict(cap=3600, tier="experimental"),
+        "c06_unregister_live_collector_step": dict(cap=3600, tier="experimental"),
+        "c06_unregister_unknown_collector_step": dict(cap=3600, tier="experimental"),
+        "c06_same_collector_twice_and_gather": dict(cap=5400, tier="experimental"),
     },
     functions=["RegistryCore::register", "RegistryCore::unregister", "RegistryCore::gather"],
     bounds="one register / unregister step from an ARBITRARY registry state of fixed shape (2 live descriptor ids, 2 names with recorded dimensions, 1 live collector; all ids and dimension hashes symbolic 64-bit values, names symbolic in {a,b,c}); collectors with 1 or 2 symbolic descriptors; unwind 6",
@@ -142,7 +142,7 @@ PROPS["C18"] = dict(
     jobs=6,
     harnesses={
         "c18_shared_one_timer": dict(cap=2400),
-        "c18_shared_two_timers": dict(cap=3600, tier="thorough"),
+        "c18_shared_two_timers": dict(cap=3600, tier="experimental"),
         "c18_local_timer_recorded": dict(cap=2400),
         "c18_local_timer_with_buffered_observation": dict(cap=2400),
         "c18_local_timer_discarded_with_buffered_observation": dict(cap=2400, tier="thorough"),
@@ -182,7 +182,7 @@ PROPS["C15"] = dict(
     harnesses={
         "c15_id_boundary_shift_21_vs_12": dict(cap=2400),
         "c15_id_boundary_shift_20_vs_11": dict(cap=2400),
-        "c15_id_same_shape_22": dict(cap=2400, tier="thorough"),
+        "c15_id_same_shape_22": dict(cap=2400, tier="experimental"),
         "c15_id_empty_value_position": dict(cap=2400),
         "c15_id_two_const_labels_order_independent": dict(cap=3600, tier="thorough"),
         "c15_dim_hash_variable_label_sets": dict(cap=2400),
@@ -204,10 +204,11 @@ PROPS["C02"] = dict(
     mem_gb=40,
     harnesses={
         "c02_s1_observe_vs_collect": dict(cap=3600),
-        "c02_s2_two_observes_prefix_closed": dict(cap=7200, tier="thorough"),
-        "c02_s3_two_observers_vs_collect": dict(cap=7200, tier="thorough"),
-        "c02_s4_two_collectors": dict(cap=7200, tier="thorough"),
-        "c03_batch_flush_three_collects": dict(cap=10800, tier="thorough"),
+        "c02_s2_two_observes_prefix_closed": dict(cap=7200, tier="experimental"),
+        "c02_s3_two_observers_vs_collect": dict(cap=7200, tier="experimental"),
+        "c02_s4_two_collectors": dict(cap=7200, tier="experimental"),
+        "c02_s5_two_collectors_after_observation": dict(cap=5400, tier="thorough", flags=["--no-memory-safety-checks", "--no-overflow-checks"]),
+        "c03_batch_flush_three_collects": dict(cap=10800, tier="experimental"),
     },
     functions=["HistogramCore::observe", "HistogramCore::proto", "ShardAndCount::{inc, inc_by, flip, get}", "AtomicU64::{inc_by, inc_by_with_ordering, swap, compare_exchange_weak}", "AtomicF64::{inc_by, swap}"],
     bounds="K rounds (see env PROMETHEUS_VERIF_K), 2-3 threads, observations in {0,1,2,3}, 1-2 buckets, unwind 6",
@@ -239,7 +240,7 @@ PROPS["C17"] = dict(
     harnesses={
         "c17_text_encoder_untyped_family": dict(cap=1800),
         "c17_text_encoder_counter_gauge": dict(cap=2400),
-        "c17_text_encoder_histogram_summary": dict(cap=3600, tier="thorough"),
+        "c17_text_encoder_histogram_summary": dict(cap=3600, tier="experimental"),
         "c17_family_without_name_or_samples_is_err": dict(cap=1800),
     },
     functions=["TextEncoder::encode_utf8", "TextEncoder::encode_impl", "encoder::check_metric_family", "text::write_sample", "text::label_pairs_to_text"],
@@ -258,7 +259,7 @@ PROPS["C10"] = dict(
         "c10_racing_first_requests_share_the_child": dict(cap=2400),
         "c10_remove_then_recreate_starts_from_zero": dict(cap=2400),
         "c10_remove_missing_child_is_an_error": dict(cap=1200),
-        "c10_reset_then_recreate_starts_from_zero": dict(cap=2400, tier="thorough"),
+        "c10_reset_then_recreate_starts_from_zero": dict(cap=2400, tier="experimental"),
         "c10_lookup_vs_remove_and_recreate": dict(cap=2400),
     },
     functions=["MetricVecCore::get_metric_with_label_values", "MetricVecCore::get_or_create_metric", "MetricVecCore::delete_label_values", "MetricVecCore::reset", "MetricVecCore::hash_label_values", "GenericCounter::inc/inc_by/get"],
@@ -302,16 +303,16 @@ PROPS["C04"] = dict(
     hosts={"encoder_text": ["c04.rs"]},
     jobs=5,
     harnesses={
-        "c04_escape_string_1_byte": dict(cap=5400, tier="thorough"),
-        "c04_escape_string_2_bytes": dict(cap=3600, tier="thorough"),
-        "c04_escape_string_3_bytes": dict(cap=3600, tier="thorough"),
-        "c04_escape_string_multibyte": dict(cap=3600, tier="thorough"),
-        "c04_write_sample_layout": dict(cap=5400, tier="thorough"),
+        "c04_escape_string_1_byte": dict(cap=5400, tier="experimental"),
+        "c04_escape_string_2_bytes": dict(cap=3600, tier="experimental"),
+        "c04_escape_string_3_bytes": dict(cap=3600, tier="experimental"),
+        "c04_escape_string_multibyte": dict(cap=3600, tier="experimental"),
+        "c04_write_sample_layout": dict(cap=5400, tier="experimental"),
         "c04_write_sample_no_labels": dict(cap=1800),
-        "c04_encode_histogram_family_layout": dict(cap=7200, tier="thorough"),
-        "c04_encode_two_families_order_and_agreement": dict(cap=7200, tier="thorough"),
-        "c04_encode_summary_family_layout": dict(cap=7200, tier="thorough"),
-        "c04_entry_points_agree_and_append": dict(cap=7200, tier="thorough"),
+        "c04_encode_histogram_family_layout": dict(cap=7200, tier="experimental"),
+        "c04_encode_two_families_order_and_agreement": dict(cap=7200, tier="experimental"),
+        "c04_encode_summary_family_layout": dict(cap=7200, tier="experimental"),
+        "c04_entry_points_agree_and_append": dict(cap=7200, tier="experimental"),
     },
     functions=["text::escape_string", "text::label_pairs_to_text", "text::write_sample"],
     bounds="escape_string: every string of 2 (quick) / 3 (thorough) bytes over {backslash, quote, LF, CR, letter} and the 2-byte character e-acute next to each class, both modes; write_sample: 2 labels + additional label with 1-byte symbolic values, every f64 bit pattern as value (marker rendering), every i64 timestamp; unwind 10-20",
